@@ -73,6 +73,7 @@ def run(chk):
     plan = []
     kinds = {}
     for wi in range(60 if quick else 700):
+        rng.seed("%d/c08-1/%d" % (chk.seed, wi))      # every world has its own stream: families do not disturb each other
         sph = rng.random() < 0.35
         wj, sph = any_world(rng, spherical=sph, lines=0.5, allow_mass_conserving=True)
         wj.pop("force surface temperature", None)
